@@ -829,7 +829,61 @@ def r10_5(prog: Program, chk: Check) -> None:
     chk.ob("R10.5", "value::bounds-merge-model::no-crash", not crashes, site, f"{len(crashes)} crashes" + (f"; first: {crashes[0]}" if crashes else ""), witness=crashes[:3])
 
 
+# --------------------------------------------------------------------- R10.6
+# parameters that are the environment of the computation, not part of the question
+R106_ENVIRONMENT = {"ctx", "self"}
+
+
+def r10_6(prog: Program, chk: Check) -> None:
+    from .common import local_assignments
+
+    chk.rule(
+        "R10.6",
+        "memo caches on long-lived objects are keyed by the whole question: in a method that looks a key up in `self.<...cache...>` and stores its result under it, the key names "
+        "every parameter of the method (other than the context) that the method reads - a parameter that is left out makes the first answer the answer for every later value of it "
+        "(a protocol match remembered for SupportsAbs[int] returned for SupportsAbs[str])",
+        floor=3,
+    )
+    n = 0
+    for cname, ci in sorted(prog.classes.items()):
+        for mname, fn in ci.methods.items():
+            params = [a.arg for a in fn.args.args[1:] + fn.args.kwonlyargs if a.arg not in R106_ENVIRONMENT]
+            stores = [
+                st for st in walk_no_nested(fn)
+                if isinstance(st, ast.Assign) and len(st.targets) == 1 and isinstance(st.targets[0], ast.Subscript) and isinstance(st.targets[0].value, ast.Attribute)
+                and norm(st.targets[0].value.value) == "self" and "cache" in st.targets[0].value.attr
+            ]
+            for st in stores:
+                cache = norm(st.targets[0].value)
+                looked_up = any(
+                    (isinstance(x, ast.Call) and isinstance(x.func, ast.Attribute) and x.func.attr == "get" and norm(x.func.value) == cache)
+                    or (isinstance(x, ast.Compare) and any(isinstance(o, (ast.In, ast.NotIn)) for o in x.ops) and norm(x.comparators[0]) == cache)
+                    or (isinstance(x, ast.Subscript) and isinstance(x.ctx, ast.Load) and norm(x.value) == cache)
+                    for x in walk_no_nested(fn)
+                )
+                if not looked_up:
+                    continue
+                key = st.targets[0].slice
+                key_names = {x.id for x in ast.walk(key) if isinstance(x, ast.Name)}
+                for _ in range(3):  # the key may be built in locals
+                    for nm in list(key_names):
+                        for v in local_assignments(fn, nm) or []:
+                            key_names |= {x.id for x in ast.walk(v) if isinstance(x, ast.Name)}
+                read = {x.id for x in walk_no_nested(fn) if isinstance(x, ast.Name) and isinstance(x.ctx, ast.Load)}
+                missing = [p for p in params if p in read and p not in key_names]
+                n += 1
+                chk.ob(
+                    "R10.6",
+                    f"{ci.module if isinstance(ci.module, str) else ci.module.name}::{cname}.{mname}::memo-key::{cache}",
+                    not missing,
+                    prog.site(ci.module, st),
+                    f"`{cache}[{norm(key)[:50]}]` remembers the result of {mname}({', '.join(params)}) without {missing} in the key: the first answer is returned for every later value of {missing}",
+                )
+    chk.analysed["memo_caches"] = n
+
+
 def run(prog: Program, chk: Check) -> None:  # noqa: F811
     guard(chk, _run_123, prog, chk)
     guard(chk, r10_4, prog, chk)
     guard(chk, r10_5, prog, chk)
+    guard(chk, r10_6, prog, chk)
